@@ -4,7 +4,7 @@
 
 use num_bigint::BigInt;
 use num_integer::Integer;
-use num_traits::{ToPrimitive, Zero};
+use num_traits::ToPrimitive;
 use std::{ops::Sub, sync::LazyLock};
 
 use boa_gc::{Finalize, Trace};
@@ -1143,22 +1143,13 @@ impl JsValue {
         let number = self.to_number(context)?;
 
         // 2. If number is NaN, +0𝔽, -0𝔽, +∞𝔽, or -∞𝔽, return +0𝔽.
-        if number.is_nan() || number.is_zero() || number.is_infinite() {
-            return Ok(0);
-        }
-
         // 3. Let int be the mathematical value whose sign is the sign of number and whose magnitude is floor(abs(ℝ(number))).
-        let int = number.abs().floor().copysign(number) as i64;
-
         // 4. Let int8bit be int modulo 2^8.
-        let int_8_bit = int % 2i64.pow(8);
-
-        // 5. If int8bit ≥ 2^7, return 𝔽(int8bit - 2^8); otherwise return 𝔽(int8bit).
-        if int_8_bit >= 2i64.pow(7) {
-            Ok((int_8_bit - 2i64.pow(8)) as i8)
-        } else {
-            Ok(int_8_bit as i8)
-        }
+        // 5. Return the 8-bit value (interpreted as signed or unsigned).
+        //
+        // NOTE: 2^8 divides 2^32, so this is ToInt32(number) truncated to 8 bits; going through
+        //       `i64` instead would saturate for magnitudes of 2^63 and above.
+        Ok(f64_to_int32(number) as i8)
     }
 
     /// `7.1.11 ToUint8 ( argument )`
@@ -1172,18 +1163,13 @@ impl JsValue {
         let number = self.to_number(context)?;
 
         // 2. If number is NaN, +0𝔽, -0𝔽, +∞𝔽, or -∞𝔽, return +0𝔽.
-        if number.is_nan() || number.is_zero() || number.is_infinite() {
-            return Ok(0);
-        }
-
         // 3. Let int be the mathematical value whose sign is the sign of number and whose magnitude is floor(abs(ℝ(number))).
-        let int = number.abs().floor().copysign(number) as i64;
-
         // 4. Let int8bit be int modulo 2^8.
-        let int_8_bit = int % 2i64.pow(8);
-
-        // 5. Return 𝔽(int8bit).
-        Ok(int_8_bit as u8)
+        // 5. Return the 8-bit value (interpreted as signed or unsigned).
+        //
+        // NOTE: 2^8 divides 2^32, so this is ToInt32(number) truncated to 8 bits; going through
+        //       `i64` instead would saturate for magnitudes of 2^63 and above.
+        Ok(f64_to_int32(number) as u8)
     }
 
     /// `7.1.12 ToUint8Clamp ( argument )`
@@ -1244,22 +1230,13 @@ impl JsValue {
         let number = self.to_number(context)?;
 
         // 2. If number is NaN, +0𝔽, -0𝔽, +∞𝔽, or -∞𝔽, return +0𝔽.
-        if number.is_nan() || number.is_zero() || number.is_infinite() {
-            return Ok(0);
-        }
-
         // 3. Let int be the mathematical value whose sign is the sign of number and whose magnitude is floor(abs(ℝ(number))).
-        let int = number.abs().floor().copysign(number) as i64;
-
         // 4. Let int16bit be int modulo 2^16.
-        let int_16_bit = int % 2i64.pow(16);
-
-        // 5. If int16bit ≥ 2^15, return 𝔽(int16bit - 2^16); otherwise return 𝔽(int16bit).
-        if int_16_bit >= 2i64.pow(15) {
-            Ok((int_16_bit - 2i64.pow(16)) as i16)
-        } else {
-            Ok(int_16_bit as i16)
-        }
+        // 5. Return the 16-bit value (interpreted as signed or unsigned).
+        //
+        // NOTE: 2^16 divides 2^32, so this is ToInt32(number) truncated to 16 bits; going through
+        //       `i64` instead would saturate for magnitudes of 2^63 and above.
+        Ok(f64_to_int32(number) as i16)
     }
 
     /// `7.1.9 ToUint16 ( argument )`
@@ -1273,18 +1250,13 @@ impl JsValue {
         let number = self.to_number(context)?;
 
         // 2. If number is NaN, +0𝔽, -0𝔽, +∞𝔽, or -∞𝔽, return +0𝔽.
-        if number.is_nan() || number.is_zero() || number.is_infinite() {
-            return Ok(0);
-        }
-
         // 3. Let int be the mathematical value whose sign is the sign of number and whose magnitude is floor(abs(ℝ(number))).
-        let int = number.abs().floor().copysign(number) as i64;
-
         // 4. Let int16bit be int modulo 2^16.
-        let int_16_bit = int % 2i64.pow(16);
-
-        // 5. Return 𝔽(int16bit).
-        Ok(int_16_bit as u16)
+        // 5. Return the 16-bit value (interpreted as signed or unsigned).
+        //
+        // NOTE: 2^16 divides 2^32, so this is ToInt32(number) truncated to 16 bits; going through
+        //       `i64` instead would saturate for magnitudes of 2^63 and above.
+        Ok(f64_to_int32(number) as u16)
     }
 
     /// `7.1.15 ToBigInt64 ( argument )`
